@@ -53,7 +53,8 @@ def read_here(kind, directory, opts=None):
     """the same reader call inside this process (placement does not depend on the host time zone); through JSON like the worker's result"""
     from vlib import tz_worker
     import warnings
-    with warnings.catch_warnings():
+    import contextlib, io
+    with warnings.catch_warnings(), contextlib.redirect_stdout(io.StringIO()):   # the AP Sensing reader prints a notice when .tra files are present
         warnings.simplefilter("ignore")
         return json.loads(json.dumps(tz_worker.read_files(kind, directory, opts or {})))
 
@@ -71,7 +72,7 @@ def run(ctx):
                          "Halo/Sentinel style names): 1-8 files, 3-40 points; every cell of st/ast/rst/rast/tmp compared with the truth table (Silixa: through Model/Readers.stackT inside "
                          "Coq); probe series aligned with the data columns; the directory listing reversed; one file with a different point count must be refused")
     ctx.trusted += ["harness vlib/props/c11.py, vlib/gen_files.py (the writer stands in for the vendors' file formats)", "XML / .ddf / binary parsing is not modelled"]
-    ctx.assumptions += ["file names follow the vendors' patterns", "AP Sensing .tra companion files are not synthesised"]
+    ctx.assumptions += ["file names follow the vendors' patterns", "AP Sensing .tra companions: only the PT100 lines of the bundled set are rewritten"]
     rng = ctx.rng("c11")
     tmp = tempfile.mkdtemp(prefix="dts_c11_")
     exprs, meta = [], []
@@ -155,6 +156,20 @@ def run(ctx):
                 o = read_here("apsensing", d, {"load_in_memory": True})
                 if "error" not in o:
                     ctx.violation("apsensing:inconsistent-lengths-loaded", "a file set with differing point counts was loaded", rec)
+            # ---- AP Sensing with .tra companions: the PT100 series carry the number of the sensor they were recorded from, whichever sensors are connected
+            if c < 4:
+                sensors = [[1, 2, 3, 4], [1, 2], [2, 4], [3]][c]
+                d = os.path.join(tmp, f"apsensing_tra{c}")
+                want = gen_files.apsensing_tra_set(d, sensors)
+                rec = {"reader": "apsensing", "tra": True, "sensors": sensors}
+                ctx.case(("apsensing-tra", c), sample=rec)
+                o = read_here("apsensing", d, {"load_in_memory": True})
+                if "error" in o:
+                    ctx.violation("apsensing:tra:raised", o["error"], rec)
+                else:
+                    got = {int(k[5:-11]): v for k, v in o["probes"].items()}
+                    if got != {k: v for k, v in want.items()}:
+                        ctx.violation("apsensing:tra:probe-series-misnamed", f"probe series by sensor number {got}; the .tra files record {want}", rec)
             # ---- Sensortran
             d = os.path.join(tmp, f"sensortran{c}")
             gen_files.sensortran_files(d, n, nx)
